@@ -5,6 +5,7 @@ import (
 	"go/token"
 	"go/types"
 	"math/big"
+	"strconv"
 	"strings"
 )
 
@@ -97,6 +98,16 @@ func registerConstModel(e *Engine) {
 		if tok == token.INT {
 			if v, ok := new(big.Int).SetString(strings.ReplaceAll(lt.CS, "_", ""), 0); ok {
 				return mkConstInt(IntT(v))
+			}
+		}
+		if tok == token.STRING {
+			if u, err := strconv.Unquote(lt.CS); err == nil {
+				return &IfaceV{T: constStrT, V: StrT(u)}
+			}
+		}
+		if tok == token.CHAR {
+			if u, _, _, err := strconv.UnquoteChar(strings.Trim(lt.CS, "'"), '\''); err == nil {
+				return mkConstInt(IntT64(int64(u)))
 			}
 		}
 		st.E.objCtr++
